@@ -2774,10 +2774,137 @@ def _sign_test(n):
     return None
 
 
+def _implicit_sign_tests(cx):
+    """Sign tests that are spelled in two steps: a branch edge that is taken exactly when a local x is negative although no
+    single comparison says `x < 0` -
+        * the edge establishes x <= 0 (the false edge of `x > 0`, the true edge of `x < 1`, ..) while x != 0 holds on every
+          path to the condition (`if (x == 0) continue; if (x > 0) {..} else {..}`), or
+        * the edge establishes x != 0 while x <= 0 (and not x < 0) holds on every path to the condition
+          (`if (x > 0) {..} else if (x != 0) {..}`).
+    Facts are canonical linear inequalities carried by a must-fact dataflow over the CFG and killed by every write to x; x
+    must be a local that is only read as a value or written by a recognised assignment / step (closed world: no address,
+    reference or by-reference capture), otherwise `cannot decide`.
+    -> [(declaration id, condition node, truth of the edge, successor block of the edge, block of the condition, text)]"""
+    fn, g, L = cx.fn, cx.g, cx.L
+    zero = {"k": "IntegerLiteral", "id": -24, "val": 0, "ty": "int"}
+    conds = []
+    for p in g.blocks:
+        raw = g.blocks[p].get("succ", [])
+        els = g.elements(p)
+        if len(raw) != 2 or raw[0] == raw[1] or None in raw or not els or not isinstance(els[-1], int) or g.blocks[p].get("term") is None:
+            continue
+        c = fn.byid(els[-1])
+        if c is not None:
+            conds.append((p, len(els) - 1, c, raw))
+
+    def ne_of(c, t, did):
+        """the condition taken with t is exactly / implies x != 0 (as in find_skew)"""
+        c0 = strip_casts(c)
+        while c0 is not None and (c0["k"] == "ParenExpr" or (c0["k"] == "UnaryOperator" and c0.get("op") == "!")):
+            if c0["k"] == "UnaryOperator":
+                t = not t
+            c0 = strip_casts(kids(c0)[0])
+        if c0 is None:
+            return False
+        b_ = match.binop(c0, ("==", "!=")) if c0["k"] == "BinaryOperator" else None
+        if b_ and ((ref_of(b_[1]) == did and const_int(b_[2]) == 0) or (ref_of(b_[2]) == did and const_int(b_[1]) == 0)):
+            return (b_[0] == "!=") == t
+        if ref_of(c0) == did:
+            return t
+        return False
+
+    cands = set()
+    for p, i, c, raw in conds:
+        for y in ir.walk(c):
+            if y["k"] == "DeclRefExpr" and y["ref"]["id"] in L.decls and y["ref"].get("kind") == "local":
+                cands.add(y["ref"]["id"])
+    out = []
+    for did in sorted(cands):
+        decl = L.decls[did]
+        ref = {"k": "DeclRefExpr", "id": -23, "ref": {"id": did, "name": decl.get("name"), "kind": "local"}, "ty": decl.get("ty")}
+        le, lt = L.req(zero, ref, False), L.req(zero, ref, True)
+        if le is None or lt is None:
+            continue
+
+        def est(c, t, what):
+            return any(linear.implies(a_, what) for a_ in L.implied(c, t))
+        hits = []
+        for p, i, c, raw in conds:
+            for t in (True, False):
+                if est(c, t, lt):
+                    continue                        # an explicit sign test: read by _sign_test
+                if est(c, t, le) or ne_of(c, t, did):
+                    hits.append((p, i, c, raw, t, "le" if est(c, t, le) else "ne"))
+        if not hits:
+            continue
+
+        def writes_it(n, did=did):
+            if n["k"] == "VarDecl" and n.get("did") == did:
+                return "kill"
+            return "kill" if writes_to(n)[0] == did else None
+        f_ne = f_le = f_lt = None
+        for p, i, c, raw, t, kind in hits:
+            if f_ne is None:
+                f_ne = mustfact.MustFact(fn, g, lambda c_, t_, did=did: ne_of(c_, t_, did) or est(c_, t_, lt) or
+                                         est(c_, t_, L.req(ref, zero, True)), writes_it)
+                f_le = mustfact.MustFact(fn, g, lambda c_, t_: est(c_, t_, le), writes_it)
+                f_lt = mustfact.MustFact(fn, g, lambda c_, t_: est(c_, t_, lt), writes_it)
+            before = lambda f: f.state.get((p, i)) is True
+            if before(f_lt):
+                continue                            # already known negative: this test decides nothing about the sign
+            if (kind == "le" and before(f_ne)) or (kind == "ne" and before(f_le)):
+                out.append((did, c, t, raw[0] if t else raw[1], p,
+                            "`%s` %s with %s %s established before it" % (dtable.describe(c)[:60], "taken" if t else "not taken", decl.get("name"),
+                                                                          "!= 0" if kind == "le" else "<= 0")))
+    # closed world for the locals found: read as a value or written by a recognised write, nothing else
+    for did in {o[0] for o in out}:
+        targets = set()
+        for z in fn.nodes():
+            d_, ip_ = writes_to(z)
+            if d_ == did and ip_ is None:
+                w = match.unop(z, ("++", "--")) or match.binop(z, ("=", "+=", "-=", "*=", "/=", "%=", ">>=", "<<=", "&=", "|=", "^="))
+                targets.add(strip_casts(w[1])["id"])
+        for y in fn.nodes():
+            if y["k"] == "LambdaExpr" and any(c_.get("id") == did and c_.get("byref") for c_ in y.get("captures", [])):
+                raise dtable.Undecidable("%s: %s, whose sign is tested in two steps, is captured by reference (line %s)" % (fn.loc, cx.name(did), y.get("l")))
+            if y["k"] != "DeclRefExpr" or y["ref"]["id"] != did:
+                continue
+            par = fn.parent(y)
+            while par is not None and (par["k"] == "ParenExpr" or par["k"] in _CASTS):
+                par = fn.parent(par)
+            if y["id"] in targets:
+                continue
+            if par is not None and ((par["k"] == "BinaryOperator" and par.get("op") in Cx._ARITH) or
+                                    (par["k"] == "UnaryOperator" and par.get("op") in ("-", "+", "~", "!")) or
+                                    par["k"] in ("IfStmt", "WhileStmt", "ForStmt", "DoStmt", "ConditionalOperator")):
+                continue                            # read as a value (the extractor drops lvalue-to-rvalue conversions)
+            raise dtable.Undecidable("%s: %s, whose sign is tested in two steps, is used at line %s in a way this rule cannot read (%s)"
+                                     % (fn.loc, cx.name(did), y.get("l"), dtable.describe(par)[:50] if par is not None else "?"))
+    return out
+
+
 def check_signed_tests(ck, cx, tag):
     """a local whose sign is tested (x < 0, x > 0 with both outcomes handled) must have a signed type in every instantiation"""
     fn = cx.fn
     n = 0
+    for did, c, t, succ, blk, txt in _implicit_sign_tests(cx):
+        decl = cx.L.decls[did]
+        ty = (decl.get("ty") or "")
+        n += 1
+        if "unsigned" not in ty:
+            ck.ok("SIGN-TEST-SIGNED", "%s %s" % (tag, decl.get("name")), "type %s (sign tested in two steps: %s)" % (ty, txt))
+            continue
+        pd = cx.g.pdom()
+        if blk in pd and succ in pd[blk]:
+            # no statement hangs on the edge: in an unsigned type the test is redundant, and whether the other side is meant
+            # to run for a wrapped value cannot be told from the code
+            raise dtable.Undecidable("%s: %s (type %s) is tested for its sign in two steps (%s), but nothing runs on the negative edge"
+                                     % (fn.loc, decl.get("name"), ty, txt))
+        # positive: the declared type in this instantiation; the edge that needs a negative value has code of its own
+        ck.violation("SIGN-TEST-SIGNED", fn.qname, "%s:%s" % (tag, decl.get("name")),
+                     "%s: this edge decides a branch of the refinement and is taken only for %s < 0, but in this instantiation `%s` has type %s: "
+                     "the difference wraps, the branch is dead and the other one runs with a huge value" % (txt, decl.get("name"), decl.get("name"), ty),
+                     fn.nloc(c))
     for z in fn.nodes():
         l = _sign_test(z)
         if l is None:
